@@ -170,7 +170,7 @@ def build(quick):
                                 continue
                             base = dict(n_requested_samples=nreq, init_batch_size=ibs, growth_factor=gf, max_prior_samples=mps,
                                         n_linear_samples=nlin)
-                            bound = (2 if quick else 4) if N >= 3 else None
+                            bound = (2 if quick else 5) if N >= 3 else None
                             if N >= 5:
                                 bound = 3
                             items.append((dict(N=N, ll=list(prof), path="inmem", opts=base), bound))
@@ -184,7 +184,7 @@ def build(quick):
                                         for pool in ([("serial",)] if quick or N > 3 else [("serial",), ("model", 2, 1, True)]):
                                             fo = dict(base, randomize_prior_order=perm is not None, n_batches=(2 if perm else None))
                                             items.append((dict(N=N, ll=list(prof), path=path, perm=perm, pool=list(pool), opts=fo),
-                                                          (1 if quick else 2) if N >= 3 else None))
+                                                          (1 if quick else 3) if N >= 3 else None))
     return items
 
 
@@ -199,7 +199,7 @@ def main():
         "states = executions, transitions = environment answers consumed. Non-trivial: at least one non-default answer.",
     )
     items = build(chk.quick)
-    chk.bounds = {"configurations": len(items), "deviation_bound": "None(N<=2) / 2 (quick) or 4 (thorough) in memory; 1 or 2 on file paths; 3 for N>=5",
+    chk.bounds = {"configurations": len(items), "deviation_bound": "None(N<=2) / 2 (quick) or 5 (thorough) in memory; 1 or 3 on file paths; 3 for N>=5",
                   "per_configuration_cap": 4000}
     chk.merge(core.parallel(shard, core.interleave(items, core.NPROC * 4)))
     if chk.total.extra.get("caps"):
